@@ -495,6 +495,7 @@ def run(ctx: Ctx) -> None:
     replay_early_mro_witness(ctx)
     replay_star_module_witness(ctx)
     replay_class_member_reexport_witness(ctx)
+    run_hunter_shapes(ctx)
     replay_witnesses(ctx)
 
 
@@ -947,6 +948,171 @@ def replay_class_member_reexport_witness(ctx: Ctx) -> None:
         pay.append({"units": {u.qname: u.source for u in units}, "order": order})
         ctx.case("witness:class-member-reexport", True, {"where": sorted(k for k in system.allobjects if k.endswith("meth"))})
     compare_lines(ctx, "imports-build-class-member-reexport", reqs, impls, pay)
+
+
+# ---------------------------------------------------------------------------------------------------------------
+# shapes reported by the hunter round (notes/C04.md "Hunter round"): re-import chains, objects re-exported twice, alias
+# ASSIGNMENTS (`Y = X`, `Y = D.X`: astbuilder._handleAliasing - not part of the abstract syntax of the Lean models, so
+# these are judged by the direct oracle only), nested classes that shadow a module name, re-exported PACKAGES.
+# Every project is generated with random names and random variation of the part that matters (chain length, number of
+# re-exporters, shadowing or not, resolved or unresolved base ...), imported by CPython and analysed by the real pydoctor
+# under two processing orders; every name CPython binds in every module and class namespace is judged.
+
+def _hq(s: str) -> str:
+    return s.replace("QQQ", "'" * 3)
+
+
+def hunter_projects(rng) -> List[Tuple[str, List[Unit], Dict[str, Any]]]:
+    """(shape, units, facts the diagnosis of a failure needs)"""
+    def nm(prefix: str) -> str:
+        return prefix + str(rng.randrange(10, 99))
+    out: List[Tuple[str, List[Unit], Dict[str, Any]]] = []
+    # H1a: a module alias re-imported n times
+    n = rng.choice([1, 2, 3])
+    pk = [nm("hp%d_" % i) for i in range(n + 1)]
+    al = [nm("ha%d_" % i) for i in range(n + 1)]
+    cA = nm("HA")
+    units = [Unit(pk[0], True, "from . import amod as %s\n" % al[0], None),
+             Unit(pk[0] + ".amod", False, _hq("class %s:\n    QQQID:%sQQQ\n" % (cA, cA)), pk[0])]
+    for i in range(1, n + 1):
+        units.append(Unit(pk[i], True, "from %s import %s as %s\n" % (pk[i - 1], al[i - 1], al[i]), None))
+    out.append(("alias-chain", units, {"hops": n, "scope": pk[n], "names": [al[n], al[n] + "." + cA]}))
+    # H1b: a class imported directly from its defining module, re-exported k times
+    k = rng.choice([1, 2])
+    p2, q2, c2 = nm("hq"), nm("hr"), nm("HB")
+    units = [Unit(p2, True, "from .amod import %s\n__all__ = ['%s']\n" % (c2, c2), None),
+             Unit(p2 + ".amod", False, _hq("class %s:\n    QQQID:%sQQQ\n" % (c2, c2)), p2),
+             Unit(p2 + ".bmod", False, "from .amod import %s\n" % c2, p2)]
+    if k == 2:
+        units.append(Unit(q2, True, "from %s.bmod import %s\n__all__ = ['%s']\n" % (p2, c2, c2), None))
+    out.append(("moved-twice", units, {"moves": k, "scope": p2 + ".bmod", "names": [c2]}))
+    # H2: a class nested in a class that binds (or not) the name the nested body uses
+    shadow = rng.choice([True, True, False])
+    pm, cA, cB, x, y = nm("hm"), nm("HC"), nm("HD"), nm("hx"), nm("hy")
+    deep = rng.choice([False, True])
+    inner = "    class Inner:\n        QQQID:Inner%sQQQ\n        %s = %s\n" % (x, y, x)
+    if deep:
+        inner = "    class Mid:\n        QQQID:Mid%sQQQ\n        class Inner:\n            QQQID:Inner%sQQQ\n            %s = %s\n" % (x, x, y, x)
+    body = "from .amod import %s as %s\nclass Outer:\n    QQQID:Outer%sQQQ\n" % (cA, x, x)
+    if shadow:
+        body += "    from .amod import %s as %s\n" % (cB, x)
+    else:
+        body += "    from .amod import %s as other%s\n" % (cB, x)
+    units = [Unit(pm, True, "", None),
+             Unit(pm + ".amod", False, _hq("class %s:\n    QQQID:%sQQQ\nclass %s:\n    QQQID:%sQQQ\n" % (cA, cA, cB, cB)), pm),
+             Unit(pm + ".cmod", False, _hq(body + inner), pm)]
+    out.append(("nested-class", units, {"shadow": shadow, "wrong": "ID:" + cB}))
+    # H3: a sub-package re-exported by another package; its sub-modules use relative imports
+    a, b, cY, cZ = nm("ha"), nm("hb"), nm("HY"), nm("HZ")
+    binds = rng.choice([True, True, False])
+    star = rng.choice([False, True])
+    imp = ("from %s import *\n" % b) if star else ("from %s import sub\n" % b)
+    units = [Unit(a, True, imp + (("from .zmod import %s as ymod\n" % cZ) if binds else "") + "__all__ = ['sub']\n", None),
+             Unit(a + ".zmod", False, _hq("class %s:\n    QQQID:%sQQQ\n" % (cZ, cZ)), a),
+             Unit(b, True, _hq("QQQMODDOC:%sQQQ\n" % b), None),
+             Unit(b + ".ymod", False, _hq("QQQMODDOC:%s.ymodQQQ\nclass %s:\n    QQQID:%sQQQ\n" % (b, cY, cY)), b),
+             Unit(b + ".sub", True, _hq("QQQMODDOC:%s.subQQQ\n" % b), b),
+             Unit(b + ".sub.mmod", False, _hq("QQQMODDOC:%s.sub.mmodQQQ\nfrom .. import ymod\nfrom ..ymod import %s\n" % (b, cY)), b + ".sub")]
+    out.append(("moved-package", units, {"binds": binds, "direct": cY}))
+    # H4: an alias of an inherited member, taken while a base of the class is still unresolved
+    pg, cP, cQ, xx, yy = nm("hg"), nm("HP"), nm("HQ"), nm("hX"), nm("hY")
+    reimported = rng.choice([True, True, False])
+    dsrc = ("from .cmod import B1 as BB1\n" if reimported else "from .bmod import B1 as BB1\n") + \
+        "from .bmod import B2\nclass D(BB1, B2):\n    QQQID:D%sQQQ\n%s = D.%s\n" % (xx, yy, xx)
+    units = [Unit(pg, True, "", None),
+             Unit(pg + ".defs", False, _hq("class %s:\n    QQQID:%sQQQ\nclass %s:\n    QQQID:%sQQQ\n" % (cP, cP, cQ, cQ)), pg),
+             Unit(pg + ".bmod", False, _hq("class B1:\n    QQQID:B1%sQQQ\n    from .defs import %s as %s\nclass B2:\n    QQQID:B2%sQQQ\n"
+                                           "    from .defs import %s as %s\n" % (xx, cP, xx, xx, cQ, xx)), pg),
+             Unit(pg + ".cmod", False, "from .bmod import B1\n", pg),
+             Unit(pg + ".dmod", False, _hq(dsrc), pg)]
+    out.append(("provisional-mro", units, {"reimported": reimported, "wrong": "ID:" + cQ}))
+    return out
+
+
+def hunter_signature(shape: str, facts: Dict[str, Any], scope: str, dotted: str, pyid, pid, r) -> str:
+    """a SPECIFIC signature when the failure is the one the shape is about, a generic one otherwise"""
+    if shape == "alias-chain" and r is None and facts["hops"] >= 2 and scope == facts["scope"] and dotted in facts["names"]:
+        return "incomplete:module-alias:reimport-chain"
+    if shape == "moved-twice" and r is None and facts["moves"] >= 2 and scope == facts["scope"] and dotted in facts["names"]:
+        return "incomplete:direct-import:moved-twice"
+    if shape == "nested-class" and r is not None and facts["shadow"] and pid == ["def", facts["wrong"]] and "Inner" in scope + "." + dotted:
+        return "unsound:nested-class:enclosing-class-scope"
+    if shape == "moved-package":
+        if r is not None and dotted.split(".")[-1] == "ymod" and "mmod" in (scope + "." + dotted) and facts["binds"]:
+            return "unsound:relative-import:moved-package"
+        if r is None and dotted == facts["direct"] and scope.endswith(".sub.mmod"):
+            return "incomplete:direct-import:moved-package"
+    if shape == "provisional-mro" and r is not None and facts["reimported"] and pid == ["def", facts["wrong"]]:
+        return "unsound:alias-through-class:provisional-mro"
+    return ("unsound" if r is not None else "incomplete") + ":hunter-shape:" + shape
+
+
+def run_hunter_shapes(ctx: Ctx) -> None:
+    projs = []
+    for _ in range(6 if ctx.quick else 60):
+        projs += hunter_projects(ctx.rng)
+    pyres = run_cpython([{"files": files_of(u), "modules": [x.qname for x in u], "sites": False} for _, u, _ in projs])
+    b_reqs, b_impl, b_pay = [], [], []
+    for (shape, units, facts), py in zip(projs, pyres):
+        src = {u.qname: u.source for u in units}
+        if py["error"]:
+            ctx.disagree("hunter-shape-importable", {"units": src}, "importable", py["error"])
+            continue
+        ctx.count("hunter:" + shape)
+        n = len(units)
+        orders = [list(range(n)), list(range(n - 1, -1, -1))]
+        try:
+            toks, _info = abstract_project(units, pd_only=True)
+        except Unsupported:
+            toks = None                       # alias assignments: outside the abstract syntax
+        seen_fail = set()
+        for order in orders:
+            try:
+                system, mods, dup = build_real(units, order)
+            except Exception as e:
+                ctx.fail("analysis-crash:" + type(e).__name__, {"units": src, "order": order}, f"{type(e).__name__}: {e}")
+                continue
+            by_doc = {o.docstring: o for o in system.allobjects.values() if isinstance(o.docstring, str)}
+            qs, qa = [], []
+            for scope, names in py["scopes"].items():
+                so = system.allobjects.get(scope)
+                if so is None or so.docstring not in (None, "") and False:
+                    pass
+                if scope.endswith(".sub.mmod"):          # a module that a re-export may have moved: found by its docstring
+                    so = by_doc.get("MODDOC:" + scope, so)
+                if so is None:
+                    so = by_doc.get("ID:" + scope.rsplit(".", 1)[-1])
+                if so is None:
+                    continue
+                for dotted, pyid in sorted(names.items()):
+                    try:
+                        r = so.resolveName(dotted)
+                    except Exception as e:
+                        ctx.fail("resolve-crash:" + type(e).__name__, {"units": src, "scope": scope, "name": dotted}, str(e))
+                        continue
+                    pid = pd_ident(r)
+                    if pid[0] == "module" and isinstance(r.docstring, str) and r.docstring.startswith("MODDOC:"):
+                        pid = ["module", r.docstring[7:]]      # a module that a re-export moved keeps its identity
+                    ctx.case("hunter:" + shape + ":" + scope + ":" + dotted, True, None)
+                    form = "must" if (shape == "alias-chain" and scope == facts.get("scope") and dotted in facts.get("names", ())) or \
+                        (shape == "moved-twice" and scope == facts.get("scope") and dotted in facts.get("names", ())) or \
+                        (shape == "moved-package" and scope.endswith(".sub.mmod") and dotted == facts.get("direct")) else "may"
+                    bad = None
+                    if r is not None and pyid[0] in ("def", "module", "value") and pid != pyid:
+                        bad = f"in {scope}, {dotted!r} resolves to {pid} but Python binds {pyid}"
+                    elif r is None and form == "must" and pyid[0] in ("def", "module"):
+                        bad = f"in {scope}, {dotted!r} (imported from its defining module / reached through a module alias) does not resolve; Python binds {pyid}"
+                    if bad:
+                        sig = hunter_signature(shape, facts, scope, dotted, pyid, pid, r)
+                        if (sig, scope, dotted) not in seen_fail:
+                            seen_fail.add((sig, scope, dotted))
+                            ctx.fail(sig, {"units": src, "scope": scope, "name": dotted, "order": order}, bad)
+            if toks is not None:
+                b_reqs.append("imports build " + " ".join(toks) + " O|" + ",".join(map(str, order)) + " ?")
+                b_impl.append("ok bad=%s | %s | " % ("true" if dup else "false", pd_dump(system)))
+                b_pay.append({"units": src, "order": order})
+    compare_lines(ctx, "imports-build-hunter-shapes", b_reqs, b_impl, b_pay)
+
 
 
 def replay_witnesses(ctx: Ctx) -> None:
